@@ -86,8 +86,13 @@ def case_eos(c: dict) -> dict:
         else:
             res = _resid_vec(eos, vp, vm, Tp, Tm)
             if max(res) > flux_tolerance(eos, branch, tol, v, vp, vm, Tp, Tm):
-                r.tag("skipped-nonconserved")
-                continue
+                if name in ("vmin", "slow1", "slow2", "v0.05", "v0.1"):
+                    # slow walls: the region in which known finding D9 (C02) is identified generically - not judged again here
+                    r.tag("skipped-nonconserved")
+                    continue
+                # elsewhere the returned numbers are what the caller integrates from (e.g. the template approximation returned
+                # silently for a hybrid next to vJ): the flow that starts there has to reach Tn all the same
+                r.tag("nonconserved-matching-judged")
             sh = OH.shock_Tn(eos, v, vp, Tp, rtol=max(1e-10, 0.01 * tol["rtol"]))  # oracle 100x tighter than the solver under test
             r.tag(f"{branch}-{sh['kind']}")
             if sh["kind"] == "incomplete":
